@@ -7,11 +7,17 @@ from __future__ import annotations
 import itertools
 import torch
 
+from mc.util import HarnessBaseFault
+
 DT = torch.float64
 
 
 class Injected(Exception):
     """private exception type raised by the crash-point injector"""
+
+
+class InjectedBase(HarnessBaseFault):
+    """injected fault that is not an Exception (KeyboardInterrupt-like): `except Exception` does not see it"""
 
 
 class Probe:
@@ -22,13 +28,14 @@ class Probe:
         self.counts = {}
         self.arm = None          # (phase, k)
         self.raised = None
+        self.base = False        # raise the BaseException-derived fault instead
 
     def tick(self):
         ph = self.phase
         c = self.counts.get(ph, 0) + 1
         self.counts[ph] = c
         if self.arm is not None and self.arm[0] == ph and self.arm[1] == c:
-            e = Injected("injected@%s#%d" % (ph, c))
+            e = (InjectedBase if self.base else Injected)("injected@%s#%d" % (ph, c))
             self.raised = e
             raise e
 
